@@ -75,6 +75,13 @@ def setup():
     import logging
     logging.disable(logging.CRITICAL)
     R.selftest()
+    # pox.openflow.nicira imports pox.core, which creates a threaded core on import when unittest is loaded
+    # (Hypothesis loads it); boot() creates the single-threaded one first, quietly.
+    import contextlib
+    import io
+    from ..sim import world
+    with contextlib.redirect_stdout(io.StringIO()):     # pox.core prints its banner when it is created
+      world.boot()
     import pox.openflow.libopenflow_01 as of
     _of = of
     try:
@@ -399,6 +406,16 @@ def _check_object(out, case):
     ok, eq = _try(out, "eq", lambda: ((obj == twin), (obj != twin)))
     if ok and eq != (True, False):
       out.fail("construct-eq", "two %s objects built from the same arguments compare (==, !=) = %s" % (kind, eq), cls=kind)
+  skip_decode = False
+  if kind == "nx_action_learn":
+    # each part of a flow_mod_spec is its own little codec object: what it writes must be what it says it is long
+    for sp in obj.spec:
+      for part in (sp.src, sp.dst):
+        ok, r = _try(out, "len", lambda: (len(part), len(part.pack())))
+        if ok and r[0] != r[1]:
+          out.fail("len", "len(%s) is %d but pack() returned %d octets" % (type(part).__name__, r[0], r[1]),
+                   cls=type(part).__name__)
+          skip_decode = True        # the decoder is driven by that length; nothing behind it can be judged
   if kind == "ofp_match":
     packed_ok, b = _try(out, "pack", lambda: obj.pack(flow_mod=(mode == "flow_mod")))
   else:
@@ -476,6 +493,9 @@ def _check_object(out, case):
     else:
       wire_fields = dict(wire_fields, match=_drop_ignored(wire_fields["match"]))
 
+  if skip_decode:
+    out.label("decode-skipped:part-length-wrong")
+    return
   variants = [("exact", b"", b"")]
   if pre or trail:
     variants.append(("embedded", pre, trail))
@@ -500,7 +520,13 @@ def _check_object(out, case):
       out.fail("roundtrip-eq", "%s (%s buffer): decoded object compares (==, reflected ==, !=) = %s to the original\n  fields: %s" % (
           kind, vname, eq, _short(nf)), cls=kind)
     if wire_fields is not None and not (eq_exempt and cat != "nxm" and kind != "nxt_packet_in" and "container-with-nicira-actions" in out.labels):
-      ok, got = _try(out, "attributes", lambda: G.fields_of(o2, kind))
+      try:
+        ok, got = _try(out, "attributes", lambda: G.fields_of(o2, kind))
+      except (AttributeError, TypeError, ValueError, KeyError, IndexError, struct.error, R.RefError) as e:
+        # the decoded object is so malformed that its public attributes cannot even be read back
+        ok = False
+        out.fail("roundtrip-fields", "%s (%s buffer): attributes of the decoded object cannot be read: %r" % (kind, vname, e),
+                 cls=kind, field="?")
       if ok and got != wire_fields:
         fld = _first_diff(got, wire_fields)
         out.fail("roundtrip-fields", "%s (%s buffer): decoded attribute %s is %s, the bytes say %s" % (
@@ -973,18 +999,24 @@ def _wrap(frag_strategy, **fixed):
       lambda t: dict({"frag": t[0], "pre": t[1], "trail": t[2]}, **fixed))
 
 
-def _strategy_of10(tier):
-  msg = _wrap(G.message("any", safe=False))
+def _strategy_messages(tier):
+  return _wrap(G.message("any", safe=False, max_list=6 if tier == "quick" else 24))
+
+
+def _strategy_parts(tier):
   act = _wrap(G.action())
   body_req = _wrap(G.stats_request_body(safe=False, generic=True))
   body_rep = _wrap(st.sampled_from(G.STATS_REPLY_KINDS).flatmap(G.stats_reply_entry))
   prop = _wrap(G.queue_prop(safe=False))
   queue = _wrap(G.packet_queue(safe=False).map(lambda f: {"k": "ofp_packet_queue", "f": f}))
   port = _wrap(G.phy_port().map(lambda f: {"k": "ofp_phy_port", "f": f}))
-  mt = st.tuples(st.booleans().flatmap(lambda c: G.match(consistent=c)), st.sampled_from(["plain", "flow_mod"]),
-                 _ctx_bytes(), _ctx_bytes()).map(
+  return st.one_of(act, act, body_req, body_rep, body_rep, prop, queue, port)
+
+
+def _strategy_match(tier):
+  return st.tuples(st.booleans().flatmap(lambda c: G.match(consistent=c)), st.sampled_from(["plain", "flow_mod"]),
+                   _ctx_bytes(), _ctx_bytes()).map(
       lambda t: {"frag": {"k": "ofp_match", "f": t[0]}, "mode": t[1], "pre": t[2], "trail": t[3]})
-  return st.one_of(msg, msg, msg, msg, act, body_req, body_rep, prop, queue, port, mt, mt)
 
 
 def _strategy_nx(tier):
@@ -995,8 +1027,13 @@ def _strategy_nx(tier):
 
 
 def plan(tier):
-  n = 6000 if tier == "quick" else 240000
-  return [
+  k = 1 if tier == "quick" else 20
+  drivers = [
     Enum("grid", lambda: _all_enum(tier), shards=16),
-    Hyp("generated-of10", lambda: _strategy_of10(tier), examples=n, shards=16),
-  ] + ([Hyp("generated-nicira", lambda: _strategy_nx(tier), examples=n // 2, shards=16)] if _NICIRA else [])
+    Hyp("generated-messages", lambda: _strategy_messages(tier), examples=5000 * k, shards=16),
+    Hyp("generated-parts", lambda: _strategy_parts(tier), examples=3000 * k, shards=16),
+    Hyp("generated-match", lambda: _strategy_match(tier), examples=1500 * k, shards=16),
+  ]
+  if _NICIRA:
+    drivers.append(Hyp("generated-nicira", lambda: _strategy_nx(tier), examples=3000 * k, shards=16))
+  return drivers
